@@ -877,4 +877,23 @@ example :
       ({ file := "x".toList, str := "x".toList } : DumpSt)).file = "xa".toList := by
   decide
 
+
+theorem filter_const_true {α} (l : List α) : l.filter (fun _ => true) = l := by
+  induction l with
+  | nil => rfl
+  | cons a l ih => simp
+
+/-- with the hoisted loop every `punch_open` of a call's first-simulation prologue precedes every heading line: no
+heading is written for a block before its file is open — the hypothesis `hpre` of `history_sel_file_eq_string` for the
+prologue (for the loop as it was, `first_sim_heads_inloop_witness` shows `head 2` before `opened 2`) -/
+theorem first_sim_open_before_head_hoisted (fileSw : Int → Bool) (prPunch : Bool) (s : SoSt) :
+    ∃ os hs : List Int, (simPrologue true fileSw true prPunch true [] s).2 = os.map Sk.opened ++ hs.map Sk.head := by
+  simp only [simPrologue, readBlocks, if_true, openLoop, List.nil_append]
+  by_cases hp : (prPunch && !s.defs.isEmpty) = true
+  · simp only [hp, if_true, openLoopHoist]
+    by_cases ht : s.defs.filter (fun d => fileSw d && !s.att d) = []
+    · exact ⟨[], s.defs, by simp [ht, tidyPunch, filter_const_true]⟩
+    · exact ⟨s.defs.filter (fun d => fileSw d && !s.att d), s.defs, by simp [ht, tidyPunch, filter_const_false, filter_const_true]⟩
+  · exact ⟨[], s.defs, by simp [hp, tidyPunch, filter_const_true]⟩
+
 end PhreeqcVerif.Route
